@@ -274,6 +274,19 @@ func (e *Engine) loadPtr(st *State, p VPtr, heap map[string]Term) Value {
 		cell := Select(Select(h, p.Ref), p.Idx)
 		ts = append(ts, selectN(cell, idx))
 	}
+	if st != nil && !st.dead {
+		// name large loaded terms: a value that is used many times (a [32]byte field compared
+		// element by element, a pointer that heads a long access path in an invariant) would
+		// otherwise repeat its whole access path at every use. Terms under a quantifier (they
+		// mention a bound variable q!...) cannot be named outside it.
+		for i := range ts {
+			if len(ts[i].S) > loadCompactThreshold && !strings.Contains(ts[i].S, "q!") {
+				c := e.sym.Fresh("ld", ts[i].Sort)
+				st.Assume(Eq(c, ts[i]))
+				ts[i] = c
+			}
+		}
+	}
 	v, _ := fromTerms(ts, t)
 	return v
 }
@@ -437,3 +450,6 @@ func (e *Engine) freshTyped(st *State, t types.Type, hint string) Value {
 func fmtPtr(p VPtr) string {
 	return fmt.Sprintf("ptr(%s,%s,%s,%v,%d)", p.Ref.S, p.Idx.S, typeName(p.Root), p.Path, p.ArrLen)
 }
+
+// loadCompactThreshold: loaded terms longer than this many characters are named by a fresh constant.
+const loadCompactThreshold = 150
